@@ -30,6 +30,12 @@ def _sd_bytes(module):
     return {k: core.tbytes(v) for k, v in module.state_dict().items()}
 
 
+def _state(module):
+    """(parameters, buffers) of the layer itself as raw bytes."""
+    return ({k: core.tbytes(v) for k, v in module.named_parameters(recurse=False)},
+            {k: core.tbytes(v) for k, v in module.named_buffers(recurse=False)})
+
+
 def _per_feature(a):
     """(N, F) view of a 2-D or 4-D array: statistics are per feature / channel."""
     if a.ndim == 4:
@@ -115,7 +121,7 @@ class RefActNorm:
             ref = (xa - Sh) / S
             bound = C_TOL * eps * ((np.abs(xa) + np.abs(Sh)) / S) * lsf + 1e-30
             refld = -hw * self.log_scale.sum()
-        ldb = C_TOL * eps * hw * (np.abs(self.log_scale).sum() + 1e-3)
+        ldb = C_TOL * eps * hw * (np.abs(self.log_scale).sum() + float(self.log_scale.size))
         _cmp(w, "actnorm " + direction, ya, ref, bound, la, refld, ldb)
 
 
@@ -407,7 +413,7 @@ class C14World(World):
             idx = len(self.monitored)
             self.monitored.append((mod, ref))
             self.lmode.append(self.mode)
-            self.expected.append(_sd_bytes(mod))
+            self.expected.append(_state(mod))
             self._hook(mod, ref, idx)
 
     def _main_layer(self):
@@ -422,38 +428,72 @@ class C14World(World):
     def _hook(self, mod, ref, idx):
         world = self
 
-        def fwd_hook(module, args, output):
-            world._observe(idx, "forward", args[0], output)
+        orig_forward = mod.forward          # bound methods of the class: no edit to /repo
+        orig_inverse = mod.inverse
 
-        mod.register_forward_hook(fwd_hook)
-        orig_inverse = mod.inverse          # bound method of the class: no edit to /repo
+        def _inputs(args, kwargs):
+            return args[0] if args else kwargs.get("inputs")
 
-        def inverse(inputs, context=None):
+        def forward(*args, **kwargs):
+            # an instance attribute shadows the class method, so the layer is observed whether a container reaches
+            # it through __call__ or through .forward, positionally or by keyword
+            out = orig_forward(*args, **kwargs)
+            world._observe_guarded(idx, "forward", _inputs(args, kwargs), out)
+            return out
+
+        def inverse(*args, **kwargs):
             try:
-                out = orig_inverse(inputs, context)
+                out = orig_inverse(*args, **kwargs)
             except Exception as e:   # noqa: BLE001
                 world._observe_inverse_raised(idx, e)
                 raise
-            world._observe(idx, "inverse", inputs, out)
+            world._observe_guarded(idx, "inverse", _inputs(args, kwargs), out)
             return out
 
+        mod.forward = forward
         mod.inverse = inverse            # instance attribute shadows the class method
 
     # ------------------------------------------------------------ observation of layer calls
+    def _observe_guarded(self, idx, direction, x, out):
+        """Errors of the observation code itself must never look like a verdict about nflows."""
+        try:
+            self._observe(idx, direction, x, out)
+        except (Violation, HarnessError):
+            raise
+        except Exception as e:   # noqa: BLE001
+            import traceback
+
+            raise HarnessError("observer failed: %s" % traceback.format_exc()[-800:]) from e
+
     def _observe(self, idx, direction, x, out):
+        torch = _T()
         layer, ref = self.monitored[idx]
         training = self.lmode[idx]
         y, ld = out
+        legal_rank = (2, 4) if ref.kind == "actnorm" else (2,)
+        if not isinstance(x, torch.Tensor) or x.dim() not in legal_rank or x.shape[0] < 2 and training:
+            # outside the property's quantifier (2-D / image batches): a call the layer chose to accept is not judged;
+            # whatever it did to the state is adopted
+            self.probes["call_outside_quantifier_not_judged"] += 1
+            ref.adopt(layer)
+            self.expected[idx] = _state(layer)
+            return
         before = self.expected[idx]
-        after = _sd_bytes(layer)
-        wrote = after != before
+        after = _state(layer)
+        init_pass = ref.may_write(training, direction) and ref.kind == "actnorm"
+        # what may change: trainable parameters only on ActNorm's single initialising pass; buffers (statistics,
+        # counters, the flag) only in training-mode forward passes; nothing in evaluation mode or in inverse calls
+        may_params = init_pass
+        may_buffers = direction == "forward" and training
         allowed = ref.may_write(training, direction)
         if ref.kind == "batchnorm" and direction == "inverse" and training:
             raise Violation("batchnorm_inverse_offered_in_training", "inverse returned a result in training mode")
-        if wrote and not allowed:
-            changed = sorted(k for k in after if after[k] != before.get(k))
+        bad = sorted(k for k in set(after[0]) | set(before[0]) if after[0].get(k) != before[0].get(k)) if not may_params else []
+        bad += sorted(k for k in set(after[1]) | set(before[1]) if after[1].get(k) != before[1].get(k)) if not may_buffers else []
+        if bad:
             raise Violation("state_written_when_forbidden", "%s %s (training=%s, initialized=%s) changed %s" % (
-                ref.kind, direction, training, getattr(ref, "initialized", None), changed))
+                ref.kind, direction, training, getattr(ref, "initialized", None), bad))
+        wrote = after != before
         if ref.kind == "actnorm":
             if direction == "forward" and not training and not ref.initialized:
                 self.probes["eval_forward_before_init"] += 1
@@ -462,7 +502,7 @@ class C14World(World):
         if self.trained > 0:
             self.judged_after_train += 1
         ref.check_call(self, layer, training, direction, x, y, ld, wrote)
-        self.expected[idx] = _sd_bytes(layer) if allowed else before
+        self.expected[idx] = _state(layer)
         if direction == "forward" and training:
             self.trained += 1
             self._train_fwd_this_op = True
@@ -475,7 +515,7 @@ class C14World(World):
         layer, ref = self.monitored[idx]
         if ref.kind == "batchnorm" and self.lmode[idx]:
             self.probes["batchnorm_inverse_refused_in_training"] += 1
-            if _sd_bytes(layer) != self.expected[idx]:
+            if _state(layer) != self.expected[idx]:
                 raise Violation("state_written_when_forbidden", "refused inverse changed the state")
             return
         self._unexpected_inverse_error = err
@@ -607,7 +647,7 @@ class C14World(World):
                         res = (out,)
                 else:
                     res = self.root(x) if direction == "forward" else self.root.inverse(x)
-        except Violation:
+        except (Violation, HarnessError):
             raise
         except Exception as e:   # noqa: BLE001
             log.add("raised", type(e).__name__)
@@ -669,9 +709,10 @@ class C14World(World):
     def _lockstep(self, when):
         """Invariants 1 and 2: flag equality and bit-identical state outside permitted writes."""
         for idx, (layer, ref) in enumerate(self.monitored):
-            now = _sd_bytes(layer)
+            now = _state(layer)
             if now != self.expected[idx]:
-                changed = sorted(k for k in set(now) | set(self.expected[idx]) if now.get(k) != self.expected[idx].get(k))
+                exp = self.expected[idx]
+                changed = sorted(k for j in (0, 1) for k in set(now[j]) | set(exp[j]) if now[j].get(k) != exp[j].get(k))
                 raise Violation("state_differs_from_reference", "%s %s: keys %s" % (ref.kind, when, changed))
             if ref.kind == "actnorm":
                 flag = getattr(layer, "initialized", None)
